@@ -75,7 +75,7 @@ class Emitter:
         base = BASE[d["base"]]
         enc = None if d["enc"] in ("NONE", "DEFAULT") else d["enc"]
         if d["k"] == "std":
-            return og.dct_standard(base, d["bits"], enc=enc, hilo=d["hilo"])
+            return og.dct_standard(base, d["bits"], enc=enc, hilo=d["hilo"], mask=d.get("mask"))
         if d["k"] == "minmax":
             return og.dct_minmax(base, d["min"], None if d["max"] < 0 else d["max"], d["term"], enc=enc, hilo=d["hilo"])
         if d["k"] == "leading":
